@@ -8,6 +8,7 @@ pub mod exec;
 pub mod net;
 pub mod prng;
 pub mod tape;
+pub mod threads;
 
 use std::cell::RefCell;
 use std::collections::{BTreeMap, BinaryHeap};
@@ -89,6 +90,15 @@ pub struct Sim {
     /// async tasks spawned with tokio::spawn (bita spawns none today)
     pub async_tasks: Vec<exec::AsyncTask>,
     pub next_async_id: u64,
+    /// helper threads of this run without a closure / with a closure parked in a futex wait
+    pub idle_helpers: Vec<std::sync::Arc<threads::Helper>>,
+    pub blocked: Vec<std::sync::Arc<threads::Helper>>,
+    /// the simulator thread itself waits on this futex address (woken?)
+    pub scheduler_wait: Option<(usize, bool)>,
+    /// closures still blocked when a command's runtime shut down (the real one would hang)
+    pub shutdown_hung: u64,
+    /// pool closures run on helper threads (true) or in place (false), see threads.rs
+    pub threaded: bool,
 }
 
 /// scripted stdin: bytes and whether fd 0 is a terminal
@@ -130,6 +140,11 @@ impl Sim {
             budget_exceeded: false,
             async_tasks: Vec::new(),
             next_async_id: 0,
+            idle_helpers: Vec::new(),
+            blocked: Vec::new(),
+            scheduler_wait: None,
+            shutdown_hung: 0,
+            threaded: false,
         }
     }
     #[inline]
@@ -194,32 +209,51 @@ pub fn install(sim: Sim) {
 }
 
 pub fn uninstall() -> Sim {
-    SIM.with(|s| s.borrow_mut().take().expect("simulator not installed"))
+    let mut sim = SIM.with(|s| s.borrow_mut().take().expect("simulator not installed"));
+    threads::finish_run(&mut sim);
+    sim
+}
+
+/// the cell holding this run's simulator: the thread's own, or on a pool helper the one of the
+/// run it works for
+#[inline]
+pub(crate) fn sim_cell() -> *const RefCell<Option<Sim>> {
+    let r = threads::REMOTE.try_with(|r| r.get()).unwrap_or(std::ptr::null());
+    if !r.is_null() {
+        return r;
+    }
+    SIM.try_with(|s| s as *const RefCell<Option<Sim>>).unwrap_or(std::ptr::null())
 }
 
 pub fn active() -> bool {
-    SIM.try_with(|s| s.try_borrow().map(|b| b.is_some()).unwrap_or(true)).unwrap_or(false)
+    let c = sim_cell();
+    if c.is_null() {
+        return false;
+    }
+    unsafe { (*c).try_borrow().map(|b| b.is_some()).unwrap_or(true) }
 }
 
 /// Access the simulator. Never call user code (closures of blocking tasks, wakers of
 /// unknown origin that could re-enter) while inside.
 #[inline]
 pub fn with<R>(f: impl FnOnce(&mut Sim) -> R) -> R {
-    SIM.with(|s| {
-        let mut b = s.borrow_mut();
-        f(b.as_mut().expect("simulator not installed on this thread"))
-    })
+    let c = sim_cell();
+    assert!(!c.is_null(), "simulator not installed on this thread");
+    let mut b = unsafe { (*c).borrow_mut() };
+    f(b.as_mut().expect("simulator not installed on this thread"))
 }
 
 /// Like `with`, but a no-op returning None when no simulator is installed or it is busy.
 #[inline]
 pub fn try_with<R>(f: impl FnOnce(&mut Sim) -> R) -> Option<R> {
-    SIM.try_with(|s| match s.try_borrow_mut() {
+    let c = sim_cell();
+    if c.is_null() {
+        return None;
+    }
+    match unsafe { (*c).try_borrow_mut() } {
         Ok(mut b) => b.as_mut().map(f),
         Err(_) => None,
-    })
-    .ok()
-    .flatten()
+    }
 }
 
 pub fn draw(bound: u32) -> u32 {
